@@ -4,6 +4,7 @@
 From Coq Require Import Reals Lra List Arith Lia Bool Permutation Sorted.
 From PUN Require Import Base.Num Base.Sort Model.Interval Model.Pbox Model.PboxArith
   Proofs.ListR Proofs.Frechet Proofs.PboxWF Proofs.WFExpr Proofs.Compose Proofs.ComposeNaive.
+From PUN Require Import Proofs.CtorFinite.
 Import ListNotations.
 Open Scope R_scope.
 
@@ -28,7 +29,7 @@ Lemma mk_sound b (l r u : list R) p : length l = steps -> length r = steps -> bo
 Proof.
   intros Hl Hr HB E. pose proof (mk_total_wf steps plo phi b l r p E) as W. split; [exact W|].
   assert (Hp : p = (l, r) \/ p = (r, l)).
-  { revert E. unfold mk_staircase_gen. unfold left_right_switch. destruct (if b then _ else _).
+  { revert E. rewrite mk_gen_core_R; unfold mk_staircase_core. unfold left_right_switch. destruct (if b then _ else _).
     - rewrite !bound_steps_id by assumption. destruct (negb _); [discriminate|]. destruct (_ && _); [|discriminate].
       destruct (crosses _ _ _); [discriminate|]. intros A; inversion A; auto.
     - rewrite !bound_steps_id by assumption. destruct (negb _); [discriminate|]. destruct (_ && _); [|discriminate].
